@@ -9,13 +9,27 @@ import TdModel.Lemmas.Bin
 namespace TdModel.C06
 open TdModel TdModel.Bin
 
+/-- The interpreted inner encoder is `bind_auth_key_inner#75a3f765 nonce:long temp_auth_key_id:long
+perm_auth_key_id:long temp_session_id:long expires_at:int`. -/
+theorem BindInner.encode_def (i : BindInner) :
+    i.encode = putU32 Facts.C06.bindInnerTypeID ++ putU64 i.nonce ++ putU64 i.tempAuthKeyID ++
+      putU64 i.permAuthKeyID ++ putU64 i.tempSessionID ++ putU32 i.expiresAt := by
+  simp [BindInner.encode, bindPuts, Facts.C06.bindInnerEncode, bindVal]
+
+/-- The interpreted envelope is `random:int128 msg_id:long seq_no:int(0) msg_len:int message`. -/
+theorem bindEnvelope_def (i : BindInner) (msgID : Nat) (random payload : Bytes) :
+    bindPuts Facts.C06.bindEnvelope i msgID random payload =
+      random ++ putU64 msgID ++ putU32 0 ++ putU32 payload.length ++ payload := by
+  simp [bindPuts, Facts.C06.bindEnvelope, bindVal, bindRaw]
+
 theorem BindInner.encode_length (i : BindInner) : i.encode.length = 40 := by
-  simp [BindInner.encode, putU32_length, putU64_length]
+  simp [BindInner.encode_def, putU32_length, putU64_length]
 
 theorem parseInner_encode (i : BindInner) (h1 : i.nonce < 2 ^ 64) (h2 : i.tempAuthKeyID < 2 ^ 64)
     (h3 : i.permAuthKeyID < 2 ^ 64) (h4 : i.tempSessionID < 2 ^ 64) (h5 : i.expiresAt < 2 ^ 32) :
     Spec.parseInner i.encode = some i := by
-  unfold Spec.parseInner BindInner.encode
+  rw [BindInner.encode_def]
+  unfold Spec.parseInner
   have ht : Facts.C06.bindInnerTypeID = 0x75a3f765 := by decide
   rw [ht]
   simp only [List.append_assoc]
